@@ -54,10 +54,10 @@ CHECKS.update({
    "Full-window alpha-beta in 7 configurations (static leaf, captures-only quiescence, TUROCHAMP, SARGON, BERNSTEIN at three branch limits) is compared at every depth 0..D on a corpus of mate nets, endgames, tactical fragments and roots whose history makes draws occur inside the tree with an unpruned reference search that uses the reference rules, draw events and score order; the PV must be legal, within depth, non-empty when it must be, its first move must attain the value, and the board must come back unchanged.",
    "The reference search calls the implementation's evaluator and exploration predicate (that is what 'same leaf evaluation / same explored moves' means); bounded by corpus and depth; reference node budget reported if hit.", "DESIGN.md §5 C03"),
  "C11": ("seq", "model_checking", "exhaustive enumeration of search sequences sharing one table (incl. every move and reply between two iterative deepenings); every exact store and every exact entry held validated against the reference value",
-   "For 17 roots x 2 position-determined configurations x 5 table sizes x 4 kinds of search sequence (iterative deepening, repeats, successive positions of a game, iterative deepening at successive positions) plus, for the low-branching roots, iterative deepening / EVERY move and EVERY reply / iterative deepening again: every search must return the table-less score and a PV starting with a best move, and every ExactBound store - mapped back to its position through the Exploration/QuietSearch seams - as well as every exact entry the table serves afterwards (swept by Read) must equal the value of that position at that depth.",
+   "For 17 roots x 2 position-determined configurations x 5 table sizes x 4 kinds of search sequence (iterative deepening, repeats, successive positions of a game, iterative deepening at successive positions) plus, for the low-branching roots, iterative deepening / EVERY move and EVERY reply / iterative deepening again: every search must return the table-less score and a PV starting with a best move, and every ExactBound store - mapped back to its position through the Exploration/QuietSearch seams - as well as every exact entry the table serves afterwards (swept by Read) must equal the value of that position at that depth. The same through the wrapper NewMinDepthTranspositionTable, with SARGON's nested-search plumbing over a material leaf, through the iterative-deepening driver (2270 positions analysed three times on one table, first move of every report valued) and through the engine (games played with and without a table).",
    "Reference values are exhaustive minimax on fresh games, valid because the corpus excludes trees with repetition/fifty-move draws (as the property does); on the five capture-rich middlegame roots exhaustive minimax is out of reach and the value is what the search itself returns without a table.", "DESIGN.md §5 C11"),
  "C12": ("seq+mc", "fault_enumeration", "fault enumeration: the search is cancelled at every one of its N cancellation polls; plus stateless exploration of running searches halted by one or two callers at any instant",
-   "Every cancellation point of every case (alpha-beta with static leaf or quiescence on an empty or warmed table, Minimax, SARGON's nested search) is exercised: the search must report ErrHalted, return the board unchanged, leave only true exact entries in the table, and follow-up searches on the same table must return what they return on a table that never saw the halted search. Interleaving half: real Iterative.Launch goroutines with a table, a halter thread and (with a time control) the hard-limit timer as lazy or grid-released threads; at the moment a caller's Halt returns the board has its initial ply and hash and the wrapped table is never read or written again.",
+   "Every cancellation point of every case (alpha-beta with static leaf or quiescence on an empty or warmed table, Minimax, SARGON's nested search) is exercised: the search must report ErrHalted, return the board unchanged, leave only true exact entries in the table, and follow-up searches on the same table must return what they return on a table that never saw the halted search. Interleaving half: real Iterative.Launch goroutines with a table, a halter thread and (with a time control) the hard-limit timer as lazy or grid-released threads; at the moment a caller's Halt returns the board has its initial ply and hash and the wrapped table is never read or written again. Engine level: a first analysis ended by Halt / Move / TakeBack / Reset on five roots (incl. mated, stalemated, claimable draw); the next analysis must start and equal a fresh engine's.",
    "Cancellation is observed only where the search polls its context; the poll count N is measured per case on the current tree.", "DESIGN.md §5 C12"),
  "C13": ("seq", "model_checking", "exhaustive enumeration of all windows over a score alphabet vs reference value",
    "For every case of the search corpus (alpha-beta in 5 configurations at depth 0..D; the two quiescence searches called directly at every root and one ply below) ALL windows a<b over {lost, mated 1..7, the leaf values of the tree with their 1-ulp neighbours, mate 7..1, won} are searched and the result is checked against the clipping contract with the reference value, the stand-pat floor and exact rating of move-less positions.",
@@ -84,7 +84,7 @@ CHECKS.update({
    "Every word of <= 4 (5) position/ucinewgame lines over a 13-line alphabet of extending, repeating, shortening and prefix-colliding commands is fed to a real uci.Driver (isready/readyok hand-shake); the engine's position, counters, draw state and full board snapshot must equal those of the reference game of the last command alone and of a fresh driver given only that command, and continuations on a fork must report draws exactly where the reference game does.",
    "Bounded by word length and alphabet (two games).", "DESIGN.md §5 C10"),
  "C18": ("seq", "model_checking", "exhaustive case grids (sequential half) + stateless exploration with function-entry scheduling points (concurrent half)",
-   "Sequential: every (root, depth, configuration) twice / after other searches on the same Search value / under five hash seeds / with noise from one seed must give identical (score, PV, nodes); engine operation words leave the engine's game untouched across analyze/halt. Concurrent: a build with a scheduling point at the entry of every non-trivial function of board/search/eval and the historical engines explores every schedule within the bound of two engines searching side by side (also sharing one Search value) and of a noisy analysis started right after halting another one, with a halt-instant grid and each engine goroutine in turn held back (slow-thread dimension); and of each historical engine alone on castling- and capture-rich roots with the iteration order of every `for range` over a map as an explored environment choice.",
+   "Sequential: every (root, depth, configuration) twice / after other searches on the same Search value / under five hash seeds / with noise from one seed must give identical (score, PV, nodes); engine operation words leave the engine's game untouched across analyze/halt; engine words over the noise option: analyses reproducible from the seed and, with the option off, equal to those of a never-noisy engine with another hash seed. Concurrent: a build with a scheduling point at the entry of every non-trivial function of board/search/eval and the historical engines explores every schedule within the bound of two engines searching side by side (also sharing one Search value) and of a noisy analysis started right after halting another one, with a halt-instant grid and each engine goroutine in turn held back (slow-thread dimension); and of each historical engine alone on castling- and capture-rich roots with the iteration order of every `for range` over a map as an explored environment choice.",
    "Concurrent half: K v K roots, depth 1-2; interleavings inside math/rand and other non-morlock code are not explored.", "DESIGN.md §5 C18"),
 })
 
